@@ -4,6 +4,9 @@ import os
 def apply(rep, rid, what, res, floor=0):
     """res = (instances[(key, info)], findings[...]) ; an instance whose key equals/prefixes a finding key is not discharged"""
     rep.rule(rid, what)
+    if getattr(res, "broken", None):
+        rep.broken.append((rid, res.broken))
+        return
     inst, findings = res[0], res[1]
     bad = [f["key"] for f in findings]
     for key, info in inst:
